@@ -178,15 +178,25 @@ def _counted(cls):
     return _CLASS_CACHE[key]
 
 
-def _dummy_app_class():
-    if "dummy" not in _CLASS_CACHE:
+WEB_URL = "https://verif.invalid/app"
+
+
+def _dummy_app_class(web=None):
+    """web: None = plain Application; True / False = WebApp with obey_rules set like that."""
+    key = "dummy" if web is None else "dummy_web"
+    if key not in _CLASS_CACHE:
         Application, AppState, _, _, _, requires_state = _app_classes()
+        if web is not None:
+            from biotite.application import WebApp as Application
 
         class DummyApp(Application):
             """In-process application: finished when `done` is set or after `k` polls."""
 
-            def __init__(self, k, run_raises, evaluate_raises):
-                super().__init__()
+            def __init__(self, k, run_raises, evaluate_raises, obey_rules=None):
+                if obey_rules is None:
+                    super().__init__()
+                else:
+                    super().__init__(WEB_URL, obey_rules=obey_rules)
                 self.k = k
                 self.run_raises = run_raises
                 self.evaluate_raises = evaluate_raises
@@ -225,8 +235,8 @@ def _dummy_app_class():
             def get_result(self):
                 return self.result
 
-        _CLASS_CACHE["dummy"] = DummyApp
-    return _CLASS_CACHE["dummy"]
+        _CLASS_CACHE[key] = DummyApp
+    return _CLASS_CACHE[key]
 
 
 def _echo_app_class():
@@ -273,14 +283,15 @@ BASE_BEHAVIOURS = [
 
 def st_base(tier):
     set_param = st.integers(0, 9).map(lambda v: ["set_param", v])
-    any_op = st.one_of(st.sampled_from(BASE_OPS[:5] + [["finish"], ["start"], ["join", "expired"]]), set_param)
+    any_op = st.one_of(st.sampled_from(BASE_OPS[:5] + [["finish"], ["start"], ["join", "expired"], ["rule"]]), set_param)
     before = st.one_of(set_param, st.sampled_from([["get_result"], ["state"], ["cancel"], ["finish"]]))
-    during = st.one_of(set_param, st.sampled_from([["get_result"], ["state"], ["state"], ["finish"], ["finish"], ["start"]]))
+    during = st.one_of(set_param, st.sampled_from([["get_result"], ["state"], ["state"], ["finish"], ["finish"], ["start"], ["rule"]]))
     beh = st.fixed_dictionaries(
         {
             "k": st.sampled_from([None, None, 0, 1, 2, 4]),
             "run_raises": st.sampled_from([False] * 5 + [True]),
             "evaluate_raises": st.sampled_from([False] * 3 + [True]),
+            "web": st.sampled_from([None, None, True, False]),
         }
     )
 
@@ -311,7 +322,12 @@ def run_base(case):
     o = Outcome()
     beh = case["beh"]
     k = beh["k"]
-    app = _dummy_app_class()(k, beh["run_raises"], beh["evaluate_raises"])
+    web = beh.get("web")  # None: Application; True / False: WebApp(obey_rules=web)
+    if web is None:
+        app = _dummy_app_class()(k, beh["run_raises"], beh["evaluate_raises"])
+    else:
+        app = _dummy_app_class(web)(k, beh["run_raises"], beh["evaluate_raises"], obey_rules=web)
+        o.label("webapp_obeys_rules" if web else "webapp_ignores_rules")
     cwd0 = os.getcwd()
 
     state = "CREATED"  # RUNNING also stands for "finished but not yet observed"
@@ -412,6 +428,20 @@ def run_base(case):
                 param = op[1]
         elif name == "finish":
             app.done = True
+        elif name == "rule":
+            # WebApp: the URL getter and the rule check work in every state and change nothing
+            if web is None:
+                continue
+            from biotite.application import RuleViolationError
+
+            before = snapshot()
+            o.check_eq(app.app_url(), WEB_URL, "webapp_url_and_rules", "app_url()")
+            if web:
+                o.expect_raises(RuleViolationError, lambda: app.violate_rule("too many requests"), "webapp_url_and_rules", "violate_rule() with obey_rules=True")
+                o.expect_raises(RuleViolationError, app.violate_rule, "webapp_url_and_rules", "violate_rule() without message")
+            else:
+                o.check_eq(app.violate_rule("too many requests"), None, "webapp_url_and_rules", "violate_rule() with obey_rules=False")
+            o.check_eq(snapshot(), before, "rejected_call_has_no_side_effects", "app_url()/violate_rule()")
         else:
             raise RuntimeError(f"unknown op {op}")
         # invariants after every step
